@@ -262,6 +262,16 @@ func (r *Run) Inconclusive(format string, args ...any) {
 	r.st.Inconclusive = fmt.Sprintf(format, args...)
 }
 
+// Pending records the case about to be executed, so that a crash of the whole
+// process (Go cannot recover from a stack overflow) leaves the culprit behind
+// in <out>/pending.json.
+func (r *Run) Pending(c any) {
+	raw, err := json.Marshal(map[string]any{"property": r.ID, "case": c})
+	if err == nil {
+		_ = os.WriteFile(filepath.Join(r.outDir, "pending.json"), raw, 0o644)
+	}
+}
+
 // Sample keeps a few cases written out in full.
 func (r *Run) Sample(v any) {
 	r.mu.Lock()
@@ -305,6 +315,20 @@ func (r *Run) Judge(replay any, vs []Violation) []Violation {
 		}
 	}
 	if len(unlisted) == 0 {
+		return nil
+	}
+	if os.Getenv("VERIF_COLLECT") != "" { // development aid: survey all signatures instead of stopping
+		for _, v := range unlisted {
+			r.st.Counters["unlisted:"+v.Sig]++
+			if _, ok := r.st.KnownExample["unlisted:"+v.Sig]; !ok {
+				r.st.KnownExample["unlisted:"+v.Sig] = v.Msg
+				if dir := os.Getenv("VERIF_COLLECT"); strings.HasPrefix(dir, "/") {
+					raw, _ := json.MarshalIndent(map[string]any{"property": r.ID, "case": replay, "violations": []Violation{v}}, "", " ")
+					_ = os.MkdirAll(dir, 0o755)
+					_ = os.WriteFile(filepath.Join(dir, fmt.Sprintf("%s_%016x.json", r.ID, Hash(v.Sig))), raw, 0o644)
+				}
+			}
+		}
 		return nil
 	}
 	raw, err := json.MarshalIndent(map[string]any{
